@@ -38,14 +38,19 @@ EXHAUSTIVE_RULE = {"quick": "all rooted leaf-labelled trees with 2..5 leaves", "
 
 
 # --- layer A ---------------------------------------------------------------
-def _nested_newick(t, counter):
+def _nested_newick(t, counter, variant=0, shift=0):
+    """newick with internal nodes named/coloured by pattern: variant 0 all named, colours on even nodes; 1 names on odd
+    nodes only (so coloured nodes are unnamed); 2 no names, colours on every third node; 3 all named, no colour.
+    `shift` changes the colour values only (same shape, same names)."""
     if isinstance(t, str):
         return t
     idx = counter[0]
     counter[0] += 1
-    inner = ",".join(_nested_newick(c, counter) for c in t)
-    col = f"[&&NHX:color={'%06x' % (0x111111 * (idx % 9 + 1))}]" if idx % 2 == 0 else ""
-    return f"({inner})I{idx}{col}"
+    inner = ",".join(_nested_newick(c, counter, variant, shift) for c in t)
+    coloured = {0: idx % 2 == 0, 1: idx % 2 == 0, 2: idx % 3 == 0, 3: False}[variant]
+    named = {0: True, 1: idx % 2 == 1, 2: False, 3: True}[variant]
+    col = f"[&&NHX:color={'%06x' % (0x111111 * ((idx + shift) % 9 + 1))}]" if coloured else ""
+    return f"({inner}){f'I{idx}' if named else ''}{col}"
 
 
 def exhaustive(tier):
@@ -60,7 +65,8 @@ def run_job(job):
         for t in all_leaf_labelled_trees(list("abcdef"[:n])):
             k += 1
             if k % mod == idx:
-                yield {"_kind": "enum", "tree": _nested_newick(t, [0]) + ";"}
+                # a second tree with the same shape and names but other colours is resolved right after the first one
+                yield {"_kind": "enum", "tree": _nested_newick(t, [0], k % 4) + ";", "tree_recoloured": _nested_newick(t, [0], k % 4, 4) + ";"}
 
 
 def _clades_of_refinements(orig: PTree):
@@ -89,6 +95,14 @@ def check_enum(case):
     orig = parse_newick(case["tree"])
     tree = Tree(case["tree"], format=1)
     results = pkg.guarded(binarize, tree)
+    if case.get("tree_recoloured") and case["tree_recoloured"] != case["tree"]:
+        # history: the same shape and names with other colours, resolved in the same process, keeps its own colours
+        orig2 = parse_newick(case["tree_recoloured"])
+        for r in pkg.guarded(binarize, Tree(case["tree_recoloured"], format=1)):
+            check_refinement(orig2, _keep_unnamed(from_ete(r)), "binarize.recoloured-twin")
+        # and the first tree resolved once more still gives its own colours
+        for r in pkg.guarded(binarize, tree):
+            check_refinement(orig, _keep_unnamed(from_ete(r)), "binarize.again-after-twin")
     expected_count = 1
     for n in orig.nodes():
         k = len(orig.children[n])
@@ -156,7 +170,30 @@ def _case(draw):
                              obj_poly=op, sp_poly=sp, allow_inconsistent=(algo == "ext_spfs")))
     case["_algo"] = algo
     case["_kind"] = "solve"
+    # colours on arbitrary nodes and blanked ancestor names (by pre-order position), applied by _decorate
+    case["_ocol"] = draw(gen.colours(7, odds=(1, 4)))
+    case["_scol"] = draw(gen.colours(7, odds=(1, 4)))
+    case["_blank"] = draw(st.lists(st.booleans(), min_size=14, max_size=14)) if gen.chance(draw, 1, 2) else []
     return case
+
+
+def _decorate(case):
+    """the case with its drawn colours set and the drawn ancestor names removed (an ancestor named in
+    leaf_syntenies - the prescribed root - keeps its name)."""
+    base = {k: v for k, v in case.items() if not k.startswith("_")}
+    blank = list(case.get("_blank") or [])
+    pos = 0
+    for key, cols in (("object_tree", case.get("_ocol")), ("species_tree", case.get("_scol"))):
+        t = parse_newick(base[key])
+        for n in t.nodes():
+            if cols and n < len(cols) and cols[n] is not None:
+                t.features[n]["color"] = cols[n]
+            if not t.is_leaf(n):
+                if pos < len(blank) and blank[pos] and t.name[n] not in base.get("leaf_syntenies", {}):
+                    t.name[n] = ""
+                pos += 1
+        base[key] = t.to_newick()
+    return base
 
 
 def strategy(tier):
@@ -175,7 +212,7 @@ def check_solve(case):
     algo = case["_algo"]
     mode = MODE[algo][0]
     ordered = mode == "ordered"
-    base = {k: v for k, v in case.items() if not k.startswith("_")}
+    base = _decorate(case)
     orig_o, orig_s = parse_newick(base["object_tree"]), parse_newick(base["species_tree"])
     poly = not (orig_o.is_binary() and orig_s.is_binary())
     best = None
@@ -229,6 +266,12 @@ def check_solve(case):
     if len(any_out) != 1:
         raise Violation(f"{algo}.ANY.count", observed=len(any_out), expected=1)
     labels = [f"algo={algo}", f"pairs={'1' if n_pairs == 1 else '2-9' if n_pairs < 10 else '10+'}", "polytomy" if poly else "binary"]
+    for t in (orig_o, orig_s):
+        if any(t.features[n].get("color") is not None and t.name[n] == "" for n in t.nodes()):
+            labels.append("unnamed_coloured_node")
+            break
+    if any(t.features[n].get("color") is not None for t in (orig_o, orig_s) for n in t.nodes()):
+        labels.append("coloured")
     return Result(poly, labels, evals=n_pairs)
 
 
